@@ -1,7 +1,7 @@
 """C15 — app-pointer tokens are non-zero, bounded, unique and resolve to their pointer."""
 import itertools
 PROP = "C15"
-COQ_FILES = ["Machine.v", "AppPtr.v", "AppPtr_proofs.v", "AppPtr_owner_proofs.v", "AppPtr2.v"]
+COQ_FILES = ["Machine.v", "AppPtr.v", "AppPtr_proofs.v", "AppPtr_owner_proofs.v", "AppPtr2.v", "AppPtr2_proofs.v"]
 DRIVERS = [dict(name="appptr", src="appptr.cpp", ops=["amap", "aown", "aown2"])]
 
 
